@@ -218,7 +218,7 @@ pub fn check_call_with(it: &Interp, ctx: &Ctx, info: &StepInfo, rules: Rules) ->
         }
         if rel < lay.reserved {
             if lay.fat32 && rel == lay.fsinfo_sector {
-                if !matches!(kind, "Flush" | "Close" | "CloseVolume" | "Remount" | "CloseAll") {
+                if !matches!(kind, "Flush" | "Close" | "CloseVolume" | "Remount" | "CloseAll") && !info.closed_file {
                     return Some(fail("fsinfo-written-by-wrong-call", what(r)));
                 }
                 for i in 0..512 {
